@@ -130,6 +130,24 @@ Section CliMainProofs.
     intros E; injection E as <-. reflexivity.
   Qed.
 
+  (* each of the three switches that select the variant is decided by the presence of ITS OWN option alone: `--assortative` counts whether or not
+     `--undirected` is given (and in whatever order), `--w` likewise *)
+  Lemma parse_options_flags argv c : parse_options argv = Some c ->
+    c_directed c = negb (has argv s_undirected) /\ c_assort c = has argv s_assortative /\ str_opt argv s_w [] = Some (c_wfile c).
+  Proof.
+    unfold parse_options.
+    destruct (negb (has argv s_k)); [discriminate|].
+    destruct (size_opt stoi argv s_k 0); [|discriminate].
+    destruct (str_opt argv s_a d_adjacency); [|discriminate].
+    destruct (str_opt argv s_w []); [|discriminate].
+    destruct (str_opt argv s_o d_results); [|discriminate].
+    destruct (size_opt stoi argv s_r 1); [|discriminate].
+    destruct (str_opt argv s_s s_random); [|discriminate].
+    destruct (size_opt stoi argv s_maxit 500); [|discriminate].
+    destruct (size_opt stoi argv s_y 10); [|discriminate].
+    intros E; injection E as <-. repeat split.
+  Qed.
+
   (* ---- 1 ---- *)
   Theorem cli_main_no_options_no_run argv : parse_options argv = None -> main argv = CliThrow 1.
   Proof. intros H. rewrite cli_main_decompose, H. reflexivity. Qed.
